@@ -80,6 +80,11 @@
 (*   listener: "DeliverMalformed" "DieOnMalformed" "DoubleDeliver"         *)
 (*             "LeakOnClose" "LeakExtraFds" "AcceptIgnoresClose"           *)
 (*             "CloseNoWait" "UnlinkAdopted" "KeepSocketFile"              *)
+(*             "LateAccept" (TODAY'S LISTENER: acceptLoop may take a       *)
+(*             connection out of the backlog while Close is under way and  *)
+(*             register its handler after Close stopped waiting -- the     *)
+(*             handler, and its logf, outlive Close; the harness reports   *)
+(*             runs that show it as a known observation)                   *)
 (*   route:    "SockSuffixMatch" "KeepBrackets" "NoValidate"               *)
 (*             "SplitFirstHash" "FirstColonPort" "TwoFrames"               *)
 (*             "IgnoreCtxOnSend"                                           *)
@@ -173,7 +178,7 @@ DConnect(d, sc) ==
   /\ UNCHANGED <<origin, closing, path, acc, cl, row>>
 
 LAccept(d) ==
-  /\ Mode = "listener" /\ dc[d].st = "backlog" /\ ~closing
+  /\ Mode = "listener" /\ dc[d].st = "backlog" /\ (~closing \/ "LateAccept" \in Bug)
   /\ dc' = [dc EXCEPT ![d].st = "hs"]
   /\ UNCHANGED <<origin, closing, path, acc, cl, row>>
 
@@ -227,7 +232,8 @@ AClose(k) ==
   /\ (IF k = 1 THEN TRUE ELSE cl[k-1] # "idle")
   /\ cl' = [cl EXCEPT ![k] = "called"]
   /\ closing' = TRUE
-  /\ dc' = [d \in DIds |-> IF dc[d].st = "backlog" THEN [dc[d] EXCEPT !.st = "dropped"] ELSE dc[d]]
+  /\ dc' = IF "LateAccept" \in Bug THEN dc
+           ELSE [d \in DIds |-> IF dc[d].st = "backlog" THEN [dc[d] EXCEPT !.st = "dropped"] ELSE dc[d]]
   /\ path' = CASE origin = "listen" /\ "KeepSocketFile" \notin Bug -> "gone"
                [] origin = "adopt" /\ "UnlinkAdopted" \in Bug -> "gone"
                [] OTHER -> path
